@@ -153,7 +153,9 @@ func (ch *channel) ReadFcall(ctx context.Context, fcall *Fcall) error {
 
 	// clear out the fcall
 	*fcall = Fcall{}
-	if err := ch.codec.Unmarshal(ch.rdbuf[:n], fcall); err != nil {
+	// n counts the size header, which is not stored in rdbuf: only the
+	// n-4 body bytes read by this call may be decoded.
+	if err := ch.codec.Unmarshal(ch.rdbuf[:n-channelMessageHeaderSize], fcall); err != nil {
 		return err
 	}
 
